@@ -188,10 +188,10 @@ def validate(ctx, traces, hdr, name):
     import re
 
     bad = {}
-    for m in re.finditer(r'<<"VERDICT", "(-?\d+)", "([^"]+)">>', out):
+    for m in re.finditer(r'<<\s*"VERDICT",\s*"(-?\d+)",\s*"([^"]+)"\s*>>', out):
         bad.setdefault(int(m.group(1)), m.group(2))
     notes = {}
-    for m in re.finditer(r'<<"NOTE", "(-?\d+)", "([^"]+)", (\d+)>>', out):
+    for m in re.finditer(r'<<\s*"NOTE",\s*"(-?\d+)",\s*"([^"]+)",\s*(\d+)\s*>>', out):
         notes.setdefault(int(m.group(1)), f"{m.group(2)}@line{m.group(3)}")
     ctx.cov["conformance_notes"] = ctx.cov.get("conformance_notes", 0) + len(notes)
     ctx.cov.setdefault("conformance_note_samples", []).extend(list(notes.values())[:5])
@@ -207,7 +207,7 @@ def validate(ctx, traces, hdr, name):
         else:
             raise common.MachineryError(f"Trace_C14 did not complete: {out[-2000:]}")
     else:
-        m = re.search(r'<<"CONSUMED", (\d+)>>', out)
+        m = re.search(r'<<\s*"CONSUMED",\s*(\d+)\s*>>', out)
         if not m or int(m.group(1)) != len(rows) - 1:
             raise common.MachineryError(f"Trace_C14 consumed {m.group(1) if m else '?'} of {len(rows) - 1} lines:\n{out[-1500:]}")
     ctx.cov["traces_validated_against_impl"] += len(traces)
